@@ -3,9 +3,10 @@ C02 — real algorithms.  Theorems about the regenerated programs; the ULP bound
 libm-based functions are decided by search (fav/props/c02.py).
 -/
 import FAVerif.Generated.C02
+import FAVerif.Lemmas.Refine
 
 namespace FAVerif.Props.C02
-open FAVerif.IR FAVerif.FP FAVerif.Gen.C02
+open FAVerif.IR FAVerif.FP FAVerif.FPQ FAVerif.Gen.C02 FAVerif.SoftRound FAVerif.Refine
 
 theorem generated_wf : ∀ p ∈ FAVerif.Gen.C02.all, p.2.wf = true := by decide +kernel
 
@@ -31,5 +32,44 @@ theorem limits_square_absolute :
     FAVerif.FP.mul binary64 0xfff0000000000000 0xfff0000000000000 = 0x7ff0000000000000 ∧
     FAVerif.FP.abs binary64 0x8000000000000000 = 0 ∧ FAVerif.FP.abs binary64 0xfff0000000000000 = 0x7ff0000000000000 := by
   decide +kernel
+
+/-- **Real `square` is correctly rounded** (0 ULP): for every finite input pattern whose square does not
+overflow, the generated program returns the pattern of RNE(x²) — float32 and float64. -/
+theorem square_correctly_rounded (lib : Libm) (x : Nat) :
+    (∀ s m e, decode binary32 x = .fin s m e → ∀ o, square_f32.eval lib [x] = some [o] → isFiniteBits binary32 o = true →
+      toQ binary32 o = some (rne (qf binary32 (by decide)) (valQ s m e * valQ s m e))) ∧
+    (∀ s m e, decode binary64 x = .fin s m e → ∀ o, square_f64.eval lib [x] = some [o] → isFiniteBits binary64 o = true →
+      toQ binary64 o = some (rne (qf binary64 (by decide)) (valQ s m e * valQ s m e))) := by
+  obtain ⟨h32, h64⟩ := square_is_mul lib x
+  constructor
+  · intro s m e hd o ho hfin
+    rw [h32] at ho
+    simp only [Option.some.injEq, List.cons.injEq, and_true] at ho
+    subst ho
+    exact mul_correct binary32 ⟨by decide, by decide⟩ x x s s m m e e hd hd hfin
+  · intro s m e hd o ho hfin
+    rw [h64] at ho
+    simp only [Option.some.injEq, List.cons.injEq, and_true] at ho
+    subst ho
+    exact mul_correct binary64 ⟨by decide, by decide⟩ x x s s m m e e hd hd hfin
+
+/-- **Real `absolute` is exact** for every finite input: the value of the result is |value of x|. -/
+theorem absolute_exact (lib : Libm) (x : Nat) :
+    (∀ q, isFiniteBits binary32 x = true → toQ binary32 x = some q → ∀ o, absolute_f32.eval lib [x] = some [o] →
+      isFiniteBits binary32 o = true ∧ toQ binary32 o = some (if q < 0 then -q else q)) ∧
+    (∀ q, isFiniteBits binary64 x = true → toQ binary64 x = some q → ∀ o, absolute_f64.eval lib [x] = some [o] →
+      isFiniteBits binary64 o = true ∧ toQ binary64 o = some (if q < 0 then -q else q)) := by
+  obtain ⟨h32, h64⟩ := absolute_is_abs lib x
+  constructor
+  · intro q hfin hq o ho
+    rw [h32] at ho
+    simp only [Option.some.injEq, List.cons.injEq, and_true] at ho
+    subst ho
+    exact abs_val ⟨by decide, by decide⟩ hfin hq
+  · intro q hfin hq o ho
+    rw [h64] at ho
+    simp only [Option.some.injEq, List.cons.injEq, and_true] at ho
+    subst ho
+    exact abs_val ⟨by decide, by decide⟩ hfin hq
 
 end FAVerif.Props.C02
